@@ -129,6 +129,15 @@ def run_case(case):
         back = guarded("add", lambda: d + a)
         if back is not None:
             chk("sub-add-inverse", fd(back) == db, f"(b-a)+a={fd(back)}")
+        # sums whose fields stay negative are representable too (over-subscription carried forward)
+        for name, other, dother in (("neg+neg", d, exp), ("neg+c", c, dc)):
+            sm = guarded(f"add/{name}", lambda: d + other)
+            if sm is not None:
+                chk(f"add/fieldwise/{name}", fd(sm) == {f: exp[f] + dother[f] for f in FIELDS}, f"sum={fd(sm)}")
+                sm2 = guarded(f"add/{name}", lambda: other + d)
+                if sm2 is not None:
+                    chk(f"add/commutative/{name}", fd(sm2) == fd(sm))
+                guarded(f"str/{name}", lambda: (str(sm), sm.to_json()))
     z = guarded("sub", lambda: a - a)
     if z is not None:
         chk("sub/self-zero", all(x == 0 for x in fd(z).values()) and z.negative_fields() == [])
